@@ -678,6 +678,9 @@ func init() {
 		if err := c12FilterFacts(repo, &sb); err != nil {
 			return "", err
 		}
+		if err := c12GlueFacts(repo, &sb); err != nil {
+			return "", err
+		}
 		return sb.String(), nil
 	}})
 }
